@@ -7,7 +7,7 @@ returned value id / raised exception id / RetryExhaustedError fields)."""
 import runner_common as rc
 
 LEVEL = "proof"
-OPTS = {"mode": "call", "p_rc": 0.7, "p_handler": 0.3, "p_abort": 0.25, "p_budget": 0.35, "p_special": 0.06}
+OPTS = {"entries": rc.ENTRIES_NO_BREAKER, "mode": "call", "p_rc": 0.7, "p_handler": 0.45, "handler_choices": ["S", "S", "D", "D", "A"], "p_abort": 0.25, "p_budget": 0.35, "p_special": 0.06}
 
 
 def run(chk):
